@@ -207,8 +207,8 @@ PROPS["C10"] = {
     "lean_modules": ["BurrowVerif.Props.C10"],
     "props_files": ["BurrowVerif/Props/C10.lean"],
     "anchors": ["core/internal/storage/inmemory.go", "core/internal/consumer/kafka_client.go", "core/internal/consumer/kafka_zk_client.go", "core/internal/notifier/coordinator.go"],
-    "streams": [dict(_STORAGE_STREAM, keys={"list", "win", "own"}),
-                dict(_DECODE_STREAM, keys={"reqs"}),
+    "streams": [dict(_STORAGE_STREAM, keys={"list", "win", "own", "acc"}),
+                dict(_DECODE_STREAM, keys={"reqs", "acc"}),
                 dict(_NOTIFIER_STREAM, keys={"notes", "lists"}),
                 {"name": "zkreader", "retry_transient": True, "keys": None, "trivial": r"^(ok|fw=-)$", "hist_keys": [],
                  "scale": {"quick": 1, "thorough": 4}, "seeds": {"quick": 1, "thorough": 1}}],
@@ -382,3 +382,6 @@ PROPS["C15"] = {
     ],
     "assumptions": [],
 }
+
+# C05 also judges the status and lag routes of the HTTP API (the request's group must be the one named in the URL)
+PROPS["C05"]["streams"].append(dict(_HTTP_STREAM, keys=None, spec_tags=[]))
